@@ -2,9 +2,10 @@ from . import astronomy, functions, image_processing, wfs, turbulence, opticalpr
 
 from .astronomy import *
 from .functions import *
-from .fouriertransform import *
 from .interpolation import *
 from .turbulence import *
+# after turbulence: its phasescreen helper must not shadow fouriertransform.ift2
+from .fouriertransform import *
 from .image_processing import *
 
 from ._version import get_versions
